@@ -2,7 +2,11 @@
 
 package compose
 
-import "github.com/cloudwego/eino/schema"
+import (
+	"fmt"
+
+	"github.com/cloudwego/eino/schema"
+)
 
 // Re-exports for the C08 correspondence harness (/verif/harness/cmd/c08): the
 // streamReaderPacker wrappers of compose/stream_reader.go driven from outside the package.
@@ -29,4 +33,45 @@ func VerifC08Merge[T any](srs []*schema.StreamReader[T]) *schema.StreamReader[T]
 	}
 	out, _ := unpackStreamReader[T](m)
 	return out
+}
+
+// VerifC08ViaAny sends a reader through the interface path of the packers: the packed reader is
+// unpacked as a stream of any (unpackStreamReader[any]: toAnyStreamReader + the type assertion
+// of every chunk) and converted back to T. Item-wise the identity.
+func VerifC08ViaAny[T any](sr *schema.StreamReader[T]) *schema.StreamReader[T] {
+	asr, ok := unpackStreamReader[any](verifC08Opaque{packStreamReader(sr)})
+	if !ok {
+		return nil
+	}
+	return schema.StreamReaderWithConvert(asr, func(a any) (T, error) {
+		v, ok := a.(T)
+		if !ok {
+			return v, fmt.Errorf("verif c08: chunk of type %T came back from the any path", a)
+		}
+		return v, nil
+	})
+}
+
+// verifC08Opaque hides the concrete packer type, so that unpackStreamReader cannot take its
+// fast path (as for a packer of another chunk type).
+type verifC08Opaque struct{ streamReader }
+
+// VerifC08ViaKey sends a reader through streamReaderPacker.withKey (every chunk becomes
+// map[string]any{key: chunk}) and takes the chunks out of the maps again. Item-wise the identity.
+func VerifC08ViaKey[T any](sr *schema.StreamReader[T], key string) *schema.StreamReader[T] {
+	m, ok := unpackStreamReader[map[string]any](packStreamReader(sr).withKey(key))
+	if !ok {
+		return nil
+	}
+	return schema.StreamReaderWithConvert(m, func(kv map[string]any) (T, error) {
+		var zero T
+		if len(kv) != 1 {
+			return zero, fmt.Errorf("verif c08: withKey produced a map with %d entries", len(kv))
+		}
+		v, ok := kv[key].(T)
+		if !ok {
+			return zero, fmt.Errorf("verif c08: withKey(%q) produced %v", key, kv)
+		}
+		return v, nil
+	})
 }
